@@ -15,7 +15,7 @@ From OxiVerif Require Import DD.Table DD.TableExtra DD.TableProofs DD.Sem DD.Bui
   DD.FamSpec DD.ZbddOps DD.ZbddOpsProofs DD.ZbddExamples DD.ZbddBool DD.ZbddBoolProofs DD.ZbddEvalProofs
   DD.ZbddBoolExamples
   DD.ConfigApply DD.ConfigProofs DD.ConfigExamples DD.ConfigBcdd DD.ConfigBcddProofs DD.ConfigZbdd
-  DD.ConfigZbddProofs DD.ConfigZbddIte.
+  DD.ConfigZbddProofs DD.ConfigZbddIte DD.ConfigBcddRun DD.ConfigZbddRun.
 Import ListNotations.
 
 Definition sch_sw : sched := sched_depth 4 (fun _ => (true, true)) [].
@@ -140,3 +140,61 @@ Example ex_z_nand_rerun :
   | None => False
   end.
 Proof. vm_compute. reflexivity. Qed.
+
+(** a history of API calls on a 3-variable ZBDD manager that holds its tautology chain *)
+Definition ex_zempty : snap :=
+  mkSnap KZbdd
+    (PositiveMap.add 3%positive (mkNode 0 [E (RN 2); E (RN 2)] 0 1)
+    (PositiveMap.add 2%positive (mkNode 1 [E (RN 1); E (RN 1)] 1 2)
+    (PositiveMap.add 1%positive (mkNode 2 [E (RT 1); E (RT 1)] 2 2)
+       (PositiveMap.empty node))))
+    [(0%N, 0%N); (1%N, 1%N)] [0; 1; 2] [0; 1; 2] [].
+
+Example ex_zempty_ok : ZbddOK ex_zempty /\ ZChainOK ex_zempty.
+Proof. split; [apply zbdd_ok_b_spec; vm_compute; reflexivity | vm_compute; reflexivity]. Qed.
+
+Definition zrunA := zrun_ops fresh_id zgt_id zacache zac_get zac_add (fun _ => SSeq) (mkZM zacache ex_zempty [] 0) ex_cops.
+Definition zrunB := zrun_ops (alloc_skip 5) (fun _ _ => false) unit znc_get znc_add (fun _ => sch_sw)
+                             (mkZM unit ex_zempty tt 0) ex_cops.
+Definition zrunC := zrun_ops alloc_addr zgt_id zacache zac_get zac_add (fun k => if Nat.even k then sch_mx else SSeq)
+                             (mkZM zacache ex_zempty [] 0) ex_cops.
+
+Definition zobserve_all {C} (r : option (zmstate C)) :=
+  match r with
+  | Some st => Some (map (observe (zm_snap C st)) ConfigExamples.all_choices)
+  | None => None
+  end.
+Definition zids_of {C} (r : option (zmstate C)) : list positive :=
+  match r with Some st => map fst (PositiveMap.elements (s_nodes (zm_snap C st))) | None => [] end.
+
+Example ex_zruns :
+  zobserve_all zrunA <> None /\ zobserve_all zrunA = zobserve_all zrunB /\ zobserve_all zrunA = zobserve_all zrunC /\
+  zids_of zrunA <> zids_of zrunB /\ zids_of zrunA <> zids_of zrunC.
+Proof. vm_compute. repeat split; try discriminate; reflexivity. Qed.
+
+(** the start states satisfy the hypotheses of the history theorems *)
+Example ex_cmsim_AB :
+  cmsim eacache eac_get unit enc_get (mkCM eacache ex_cempty [] 0) (mkCM unit ex_cempty tt 0).
+Proof.
+  split; [apply csim_refl; exact ex_cempty_ok|]. split; [apply eac_empty_ok | apply enc_ok].
+Qed.
+
+Example ex_zmsim_AB :
+  zmsim zacache zac_get unit znc_get (mkZM zacache ex_zempty [] 0) (mkZM unit ex_zempty tt 0).
+Proof.
+  split; [apply zsim_refl; apply ex_zempty_ok|]. split; [apply zac_empty_okB | apply znc_okB].
+Qed.
+
+(** same store and schedule, other cache and operand order: identical final tables *)
+Example ex_hist_cache_exact :
+  (match crun_ops fresh_id lt_id eacache eac_get eac_add (fun _ => sch_sw) (mkCM eacache ex_cempty [] 0) ex_cops,
+         crun_ops fresh_id ApplyBcddExamples.gt_id unit enc_get enc_add (fun _ => sch_sw) (mkCM unit ex_cempty tt 0) ex_cops with
+   | Some a, Some b => cm_snap eacache a = cm_snap unit b
+   | _, _ => False
+   end) /\
+  (match zrun_ops fresh_id zgt_id zacache zac_get zac_add (fun _ => sch_sw) (mkZM zacache ex_zempty [] 0) ex_cops,
+         zrun_ops fresh_id (fun _ _ => false) unit znc_get znc_add (fun _ => sch_sw) (mkZM unit ex_zempty tt 0) ex_cops with
+   | Some a, Some b => zm_snap zacache a = zm_snap unit b
+   | _, _ => False
+   end).
+Proof. vm_compute. split; reflexivity. Qed.
